@@ -48,7 +48,7 @@ for p in props:
 hook = subprocess.check_output(['git','-C','/repo','log','--format=%h','--grep=verif hook']).decode().split()
 m = {
  "version": 1,
- "setup_cmd": "cd /verif/sim && CARGO_NET_OFFLINE=true cargo build --release --offline && cargo build --release --offline --no-default-features --features f_unicode --target-dir target-noalloc && cargo build --release --offline --no-default-features --features f_alloc --target-dir target-nounicode",
+ "setup_cmd": "cd /verif/sim && CARGO_NET_OFFLINE=true cargo build --release --offline && cargo build --release --offline --no-default-features --features f_unicode --target-dir target-noalloc && cargo build --release --offline --no-default-features --features f_alloc --target-dir target-nounicode && ./target/release/fatsim selftest",
  "hooks": {"guard": "fatfs_verif", "enable": "RUSTFLAGS=\"--cfg fatfs_verif\" (set in /verif/sim/.cargo/config.toml)", "baseline_off_cmd": "cd /repo && cargo test --workspace --no-fail-fast --offline", "source_commits": hook, "add_only": True},
  "engines": [{"name": "fatsim", "path": "/verif/sim", "serves_properties": sorted(T), "kind_free_text": "deterministic simulator: SimDisk (fault-injecting sparse block device with write log), SimClock, seeded multi-client scheduler, tree model, independent FAT decoder, crash-image builder"}],
  "checks": checks,
